@@ -111,6 +111,27 @@ Theorem C01_lazyrrt_reports_only_validated_paths :
   path <> [] /\ In (hd dflt path) starts /\ consecutive (fun a b => mv a b = true) path /\ sat (last path dflt) = true.
 Proof. exact lazy_solve_spec. Qed.
 
+(* geometric::RLRT (range-limited random tree: the node to extend from is drawn with RNG::uniformInt, everything else is the RRT
+   loop — same model section, same proof): the same statement *)
+Theorem C01_rlrt_reports_only_real_paths :
+  forall (St D : Type) (dlt : D -> D -> bool) steer mv sat gdist (goal_state dflt : St),
+  (forall a b c, dlt a b = true -> dlt b c = true -> dlt a c = true) -> (forall a, dlt a a = false) ->
+  forall starts us hits samples, starts <> [] ->
+  let tree := fst (rlrt_solve St D dlt steer mv sat gdist goal_state dflt starts us hits samples) in
+  (forall i s, nth_error tree i = Some (s, None) -> In s starts) /\
+  (forall i s p, nth_error tree i = Some (s, Some p) -> (p < i)%nat /\ exists ps pp, nth_error tree p = Some (ps, pp) /\ mv ps s = true) /\
+  match snd (rlrt_solve St D dlt steer mv sat gdist goal_state dflt starts us hits samples) with
+  | Some (path, approx, dd) =>
+      path <> [] /\ In (hd dflt path) starts /\ consecutive (fun a b => mv a b = true) path /\ dd = gdist (last path dflt) /\
+      (exists i, (length starts <= i < length tree)%nat /\ last path dflt = fst (nth i tree (dflt, None))) /\
+      (if approx then sat (last path dflt) = false /\
+                      forall j, (length starts <= j < length tree)%nat -> dlt (gdist (fst (nth j tree (dflt, None)))) dd = false
+       else sat (last path dflt) = true)
+  | None => tree = map (fun x => (x, None)) starts
+  end.
+Proof. exact rlrt_solve_spec. Qed.
+
+Print Assumptions C01_rlrt_reports_only_real_paths.
 Print Assumptions C01_lazyrrt_reports_only_validated_paths.
 Print Assumptions C01_rrtconnect_reports_only_real_paths.
 Print Assumptions C01_rrt_reports_only_real_paths.
